@@ -33,6 +33,9 @@ Definition t_tupl := TSeq [r (TSeqOf TStr)].
 (* a message that can be blank: zero bytes of content *)
 Definition t_blank := TSeq [o (TInt KU8); o TStr; o (TSeqOf TBool)].
 Definition t_chblank := TChoice [t_blank; TInt KU8].
+(* DEFAULT components are ordinary components for the protobuf writer/reader (write_default / read_default delegate) *)
+Definition t_definner := TSeq [r (TInt KU8); r TStr; r TBool].
+Definition t_defch := TChoice [t_definner; TInt KU8].
 
 Definition zoo_ty (id : Z) : option pty :=
   match id with
@@ -64,6 +67,12 @@ Definition zoo_ty (id : Z) : option pty :=
   | 23 => Some (TSeq [r (TSeqOf t_blank); r (TInt KU8)])
   | 24 => Some t_chblank
   | 25 => Some (TSeq [r t_blank; o t_blank; r t_chblank; r TBool])
+  | 26 => Some (TSeq [r TStr; r (TInt KU8); r (TInt KI8); r TBool; r TStr; r t_color; r (TInt KU16); r (TInt KU64); o TStr])
+  | 27 => Some (TSeq [r (TInt KU8); r TBool; o (TInt KU8); r TStr; r TBool])
+  | 28 => Some (TSeq [r (TInt KU8); r TBool; r t_color; r (TInt KU8)])
+  | 29 => Some t_definner
+  | 30 => Some t_defch
+  | 31 => Some (TSeq [r (TSeqOf t_definner); r t_defch; o t_definner])
   | _ => None
   end.
 
